@@ -51,6 +51,7 @@ RULE = (
     "consumes the specification is then executed (construction, fit, slice_, contour construction, evaluation). Rejected = an exception is raised by that operation "
     "and no result object is returned. Every injection has a control - the same description without the fault - which must NOT raise. evaluations = injections "
     "executed; non-trivial = the control succeeded; distinct = (fault kinds, positions, carrier structure and families)."
+    ' Also: fit faults on a carrier whose parameters are all fixed (bare and inside a model).'
 )
 ASSUMPTIONS = [
     "'where they are supplied' = no later than the first operation that consumes the specification (construction for model descriptions and slicer options; "
